@@ -99,7 +99,7 @@ def harness(tier, seed):
         sym = all(m[a][b] == m[b][a] for a in range(n) for b in range(n))
         # --- write -> read
         try:
-            inst = Instance("gen", 0, np.array(m, np.int64))
+            inst = Instance(rng.choice(["gen", "my_tsp", "rand_atsp", "tsp", "X_TSP3", "gen1"]), 0, np.array(m, np.int64))
             out = []
             inst.to_stream(out.append)
             back = ti._from_stream(iter(out), lambda _: inst.tour_length_lower_bound)
